@@ -60,6 +60,10 @@ class Gen:
     def atom(self, a):
         if a == "a":
             return lit(next(self.letters)), None
+        if a == "(?i)a":
+            t = T.leaf("lit-ci", "i")
+            strip(strip(strip(t.fields["topology"]).fields["0"]).fields["0"]).fields["text"] = next(self.letters)
+            return t, None
         if a in CLASS_ATOMS:
             return klass(*CLASS_ATOMS[a], name=self.fresh()), None
         return ATOMS[a](self.fresh()), None
@@ -86,7 +90,8 @@ class Gen:
                 else:
                     tok, _ = self.atom(a)
                     toks.append(tok)
-                    text += strip(strip(strip(strip(tok.fields["topology"]).fields["0"]).fields["0"]).fields["text"]) if a == "a" else a
+                    ltext = strip(strip(strip(strip(tok.fields["topology"]).fields["0"]).fields["0"]).fields.get("text")) if a in ("a", "(?i)a") else None
+                    text += ltext if a == "a" else ("(?i)" + ltext + "(?-i)" if a == "(?i)a" else a)
         if trail and segments and segments[-1] != "TREE":
             toks.append(T.leaf("sep", self.fresh()))
             text += "/"
@@ -112,7 +117,7 @@ def literal_catalogue(tier):
     """Expressions made of literals, separators, alternations and exactly bounded repetitions of literals: the shapes
     for which invariant text is plausible (C11)."""
     out = []
-    bodies = [[["a"]], [["a"], ["a"]], [["a", "a"]], [["[x]"]], [["a", "[xy]"]], [["[!x]"]], [["[x-z]", "a"]]]
+    bodies = [[["a"]], [["a"], ["a"]], [["a", "a"]], [["[x]"]], [["a", "[xy]"]], [["[!x]"]], [["[x-z]", "a"]], [["(?i)a"]], [["(?i)a", "a"]]]
 
     def branch_variants():
         yield None
@@ -668,9 +673,10 @@ def reference_regex(toks, top=True):
                 text = strip(k.fields["text"])
                 if isinstance(text, StrB):
                     text = text.concrete()
-                if not isinstance(text, str) or strip(k.fields["is_case_insensitive"]) is not False:
+                ci = strip(k.fields["is_case_insensitive"])
+                if not isinstance(text, str) or not isinstance(ci, bool):
                     return None
-                out.append("(?-i:" + rxc.escape(text) + ")")
+                out.append(("(?i:" if ci else "(?-i:") + rxc.escape(text) + ")")
             elif inner.variant == "Class":
                 members = ""
                 for a_ in strip(k.fields["archetypes"]).items:
@@ -755,7 +761,65 @@ def judge_semantics(J, text, toks):
         return {"text": text, "status": "unanalysable", "what": "a program text: %s" % e}
 
 
+def judge_captures(J, text, toks):
+    """C04: one capturing group, in order, per capturing token of the top-level sequence - and no other."""
+    tree = J.tree(toks)
+    acc = _accepted(J, text, tree)
+    if acc is False:
+        return {"text": text, "status": "rejected"}
+    if acc is None:
+        return {"text": text, "status": "unanalysable", "what": "the rule checker's verdict"}
+    it = J.F.find("token::Token::is_capturing")
+    inst = (J.F.instances_of(it) or [False])[0]
+    kinds = []
+    for tok in toks:
+        I = Interp(J.F)
+        cases = I.explore(lambda: I.call_item(it, [Ref(Place(Cell(tok)))], inst=inst))
+        if len(cases) != 1 or not isinstance(strip(cases[0].result), bool):
+            return {"text": text, "status": "unanalysable", "what": "Token::is_capturing"}
+        kinds.append(strip(cases[0].result))
+    pat = J.pattern(tree)
+    if pat is None:
+        return {"text": text, "status": "unanalysable", "what": "encode::compile"}
+    try:
+        node, _p = rx.parse(pat)
+        groups = rx.capturing_groups(node)
+    except rx.RxError as e:
+        return {"text": text, "status": "unanalysable", "what": "the program text %r: %s" % (pat, e)}
+    n_groups = groups if isinstance(groups, int) else len(groups)
+    want = sum(1 for k in kinds if k)
+    ok_ = n_groups == want
+    return {"text": text, "status": "sound" if ok_ else "unsound", "verdict": "%d capturing token(s)" % want, "pattern": pat,
+            "why": None if ok_ else "its program has %d capturing group(s): captures after the first surplus / missing group are attributed to the wrong sub-expression" % n_groups}
+
+
+def judge_owned(J, text, toks):
+    """C19: re-owning the tree (Token::into_owned, i.e. the fold_map machinery) gives the same tree."""
+    from ..models import deep_copy
+    tree = J.tree(toks)
+    acc = _accepted(J, text, tree)
+    if acc is False:
+        return {"text": text, "status": "rejected"}
+    it = J.F.find("token::Token::into_owned")
+    inst = (J.F.instances_of(it) or [False])[0]
+    I = Interp(J.F)
+    cases = I.explore(lambda: I.call_item(it, [deep_copy(tree)], inst=inst))
+    if len(cases) != 1 or isinstance(cases[0].result, (Top, Panicked)):
+        return {"text": text, "status": "unanalysable", "what": "Token::into_owned"}
+    res = cases[0].result
+    same = same_tree(res, tree)
+    out = {"text": text, "status": "sound" if same else "unsound", "verdict": "the tree", "pattern": "-"}
+    if not same:
+        p0, p1 = J.pattern(tree), J.pattern(deep_copy(strip(res)))
+        out["why"] = "into_owned rebuilds another tree (program of the original %s, of the re-owned tree %s)" % (p0, p1)
+    return out
+
+
 def judge_query(J, query, text, toks):
+    if query == "owned":
+        return judge_owned(J, text, toks)
+    if query == "captures":
+        return judge_captures(J, text, toks)
     if query == "rules":
         return judge_rules(J, text, toks)
     if query == "semantics":
@@ -842,6 +906,8 @@ def judge_all(F, tier, jobs=None, query="exhaustive"):
                 "depth": ("general", "pairs", "nested"), "exhaustive": ("general", "pairs", "nested"),
                 "semantics": ("general", "rooted", "literal", "pairs", "nested"),
                 "rules": ("general", "rooted", "pairs", "nested"),
+                "captures": ("general", "rooted", "literal", "pairs", "nested"),
+                "owned": ("general", "literal", "pairs", "nested"),
                 "accepted": ("general", "rooted", "literal", "pairs", "nested")}.get(query, ("general",))
     builders = [b for fl in flavours for b in catalogue(tier, fl)]
     for build in builders:
@@ -980,6 +1046,8 @@ def report(F, R, rule, tier):
 
 
 QUERY_TEXT = {
+    "owned": ("is re-owned as %s", "token::Token::into_owned"),
+    "captures": ("reports %s", "token::Token::is_capturing"),
     "rules": ("is %s by the rule checker", "rule::check"),
     "semantics": ("compiles to the %s", "encode::compile"),
     "partition": ("partitions into %s", "token::Tokenized::partition"),
